@@ -6,6 +6,7 @@ import random
 
 from . import detsched as ds
 from . import lean_audit
+from . import plug
 
 RULE = {
     "C01": "scenario = 1-6 threads x 1-3 ops of {wait,go,bool,then,remove_then} on one real Signal/Never; schedule = seeded "
@@ -119,6 +120,10 @@ def _run_batch(prop, items, use_driver=True):
             res.setdefault("infra", []).append("hung run")
         text.append("run %d m1 never=%d raises=%s" % (idx, 1 if sc["never"] else 0, ",".join(str(k) for k in sc["raises"])))
         text.extend(r["lines"])
+        for ln in r["lines"]:
+            if not ln.startswith("enabled"):
+                kk = "kind:" + plug.line_kind(ln)
+                res["extra"][kk] = res["extra"].get(kk, 0) + 1
         meta.append((sc, r))
         if len(res["samples"]) < 2 and r["switches"] > 2:
             res["samples"].append({"scenario": sc, "schedule_prefix": r["choices"][:40], "outcome": r["outcome"],
